@@ -12,6 +12,7 @@
 package main
 
 import (
+	"reflect"
 	"go/ast"
 	"go/parser"
 	"go/token"
@@ -248,6 +249,26 @@ func sourceClocks() string {
 		}
 		sort.Strings(ks)
 		out = append(out, file+":"+strings.Join(ks, "+"))
+	}
+	return strings.Join(out, ";")
+}
+
+// exportedFields: the exported fields of the structs the application can reach (reflection on the built library).  The
+// model column (Extract/D05.v, exported_expected) carries the same list; the classification of each field -- written by the
+// library (compared in the dumps), written by the application (varied as an input of the histories), configuration -- is
+// next to it there and in docs/C05.md.  A NEW exported field changes the line and has to be classified.
+func exportedFields() string {
+	var out []string
+	for _, v := range []interface{}{packet.Host{}, packet.MACEntry{}, packet.Session{}, packet.NICInfo{}} {
+		t := reflect.TypeOf(v)
+		var fs []string
+		for i := 0; i < t.NumField(); i++ {
+			if f := t.Field(i); f.PkgPath == "" {
+				fs = append(fs, f.Name)
+			}
+		}
+		sort.Strings(fs)
+		out = append(out, t.Name()+":"+strings.Join(fs, "+"))
 	}
 	return strings.Join(out, ";")
 }
